@@ -4,6 +4,7 @@ from .. import core
 from ..core import Run, ToolError
 from . import c02
 
+NC_TIMEOUT = 600
 SIM = {"quick": dict(num=200, workers=4, maxnodes=30, minnodes=12), "thorough": dict(num=2000, workers=16, maxnodes=45, minnodes=16)}
 
 
@@ -28,6 +29,20 @@ def drive_and_validate(run, cases, shards):
 def check(tier):
     run = Run("C18", tier)
     cases = c02.generate(run, tier, **SIM[tier])
+    # the exhaustive name families of MC_NestChains: every name shape as a definition with required / DEFAULT / nested optional
+    # components, and every name shape -- also the ones spelled like a class reference -- defined in one module, imported and used in another
+    nc_cfg = run.path("MC_NestChains_names.cfg")
+    open(nc_cfg, "w").write("SPECIFICATION Spec\nCONSTANT MaxChain = 1\nINVARIANTS EmitNames EmitImported\nCHECK_DEADLOCK FALSE\n")
+    nc = core.tlc("mc/MC_NestChains.tla", nc_cfg, workers=1, timeout=NC_TIMEOUT, xmx="4g")
+    run.add_tlc(nc, "name shapes and imported name shapes x outer kind (MC_NestChains EmitNames, EmitImported)")
+    seen = set()
+    for c in nc.printed("CASE"):
+        k = json.dumps(c, sort_keys=True)
+        if k not in seen:
+            seen.add(k)
+            cases.append(c)
+    if len(seen) < 50:
+        raise ToolError(f"expected 60 name-family tables, got {len(seen)}")
     run.case_of = lambda ev: cases[ev["case"]] if "case" in ev and ev["case"] < len(cases) else None
     events = drive_and_validate(run, cases, shards=4 if tier == "quick" else 16)
     run.cov["evaluations"] = len(cases)
